@@ -93,6 +93,7 @@ fn dispatch(w: &[&str]) -> String {
         "tenc" => typed::run_enc(&w[1..]),
         "tencpath" => typed::run_encpath(&w[1..]),
         "tdec" => typed::run_dec(&w[1..]),
+        "tretry" => typed::run_retry(&w[1..]),
         "tokenc" => tokop::run_enc(&w[1..]),
         "tokencs" => tokop::run_enc_split(&w[1..]),
         "tokdec" => tokop::run_dec(&w[1..]),
